@@ -179,6 +179,10 @@ impl<'a> G<'a> {
         let sizes_t: [(u64, u32); 9] = [(189, 3), (192, 2), (249, 2), (250, 2), (499, 2), (500, 2), (799, 1), (800, 1), (1024, 1)];
         let mut sizes: Vec<(u64, u32)> = sizes_q.to_vec();
         sizes.push((189, 2));
+        if self.rng.chance(1, 3) {
+            // rarely, even in the quick tier: a size in the 8-bit-window regime of Pippenger
+            sizes.push((800, 1));
+        }
         if self.cfg.thorough {
             sizes.extend_from_slice(&sizes_t);
         }
